@@ -124,6 +124,77 @@ def micro_c10_scenario(r) -> Dict[str, Any]:
     return sc
 
 
+def micro_c08_scenario(r) -> Dict[str, Any]:
+    """Orders competing for one bar's liquidity and for the same funds: an earlier all-or-nothing order that fits the
+    liquidity but cannot be paid after a price gap, followed by orders that fit what is (or should be) left."""
+    bp, qp = r.choice([(0, 2), (2, 2), (3, 0), (8, 2)])
+    p0 = D(r.choice([5, 50, 400]))
+    gap = D(r.choice(["2", "3", "0.4", "1"]))
+    limit_pct = D(r.choice([25, 50, 100]))
+    big = max(q(D(r.choice([40, 90, 150])), bp), unit(bp))
+    small = max(q(big * D(r.choice(["0.1", "0.2", "0.5"])), bp), unit(bp))
+    side = r.choice(["buy", "buy", "sell"])
+    L = big + small * D(r.choice(["0.5", "0.9", "1", "2"]))           # liquidity of the decisive bar
+    vol = L * 100 / limit_pct
+    usd = q((big + small) * p0 * D(r.choice(["1.02", "1.1", "1.5", "4"])), qp)
+    p1 = max(q(p0 * gap, qp), unit(qp))
+    bars = [[1, _s(p0), _s(p0), _s(p0), _s(p0), _s(vol)], [2, _s(p1), _s(p1), _s(p1), _s(p1), _s(vol)],
+            [3, _s(p1), _s(p1), _s(p1), _s(p1), _s(vol)]]
+    orders = []
+    for amt in ([big, small] if r.random() < 0.7 else [small, big, small]):
+        orders.append({"op": "order", "kind": r.choice(["market", "market", "stop"]), "side": side, "pair": "BTC/USD",
+                       "amount": _s(amt), "stop": _s(p0 if side == "buy" else p1), "auto_borrow": False, "auto_repay": False})
+    fee = None if r.random() < 0.5 else {"pct": r.choice(["0.1", "1"]), "min": "0"}
+    return {"class": "micro_c08", "symbols": {"BTC": bp, "USD": qp}, "pairs": [["BTC", "USD"]], "explicit_pair_info": [],
+            "fee": fee, "liq": {"limit": _s(limit_pct), "impact": r.choice(["0", "10"])}, "lend": None,
+            "max_concurrent": 50, "bars": {"BTC/USD": bars},
+            "init": {"USD": _s(usd), "BTC": _s(big + small * 2) if side == "sell" else "0"},
+            "actions": {"BTC/USD@1": orders}, "on_order_event": [], "jobs": []}
+
+
+def micro_c07_scenario(r) -> Dict[str, Any]:
+    """Requests that fail *late*: a pair whose first bar comes after the request, so that a price is missing at one
+    of the internal steps (valuing the margin, converting the interest, estimating a market order)."""
+    sc = gen.gen_scenario(r, "margin")
+    sc["class"] = "micro_c07"
+    sc["symbols"] = {"BTC": 4, "ETH": 3, "USD": 2}
+    sc["pairs"] = [["BTC", "USD"], ["ETH", "USD"]]
+    sc["explicit_pair_info"] = []
+    n = r.randint(6, 12)
+    late = r.randint(2, 4)
+    sc["bars"] = {"BTC/USD": gen.gen_bars(r, n, 2, D(1000), [D(1000)], step_choices=(1,)),
+                  "ETH/USD": [[row[0] + late] + row[1:] for row in gen.gen_bars(r, n - late, 2, D(50), [D(1000)], step_choices=(1,))]}
+    sc["init"] = {"USD": r.choice(["0", "1000", "100000"]), "BTC": r.choice(["0", "2"]), "ETH": "0"}
+    cond = lambda isym: {"interest_symbol": isym, "pct": r.choice(["1", "7", "40"]),  # noqa: E731
+                         "period_s": r.choice([0, 0, 86400]), "min": r.choice(["0", "0.01"]),
+                         "req": r.choice(["0", "0", "0.25", "1"])}
+    sc["lend"] = {"quote": "USD", "default": cond("USD"), "per_symbol": {"ETH": cond("USD"), "BTC": cond("USD")}}
+    if r.random() < 0.25:
+        # an interest symbol that can never be priced from the borrowed one (no ETH/BTC pair)
+        sc["lend"]["per_symbol"]["ETH"]["interest_symbol"] = "BTC"
+    actions: Dict[str, List[Dict[str, Any]]] = {}
+    for t in range(1, n + 1):
+        acts = []
+        for _ in range(r.choice([1, 2, 3])):
+            x = r.random()
+            if x < 0.45:
+                sym = r.choice(["ETH", "ETH", "BTC", "USD"])
+                acts.append({"op": "loan", "symbol": sym, "amount": r.choice(["1", "5", "0.5"]), "boundary": False})
+            elif x < 0.75:
+                acts.append({"op": "order", "kind": r.choice(["market", "limit", "stop"]), "side": r.choice(["buy", "sell"]),
+                             "pair": r.choice(["ETH/USD", "BTC/USD"]), "amount": r.choice(["1", "0.5"]),
+                             "limit": "40", "stop": "60", "auto_borrow": r.random() < 0.7, "auto_repay": r.random() < 0.3})
+            elif x < 0.9:
+                acts.append({"op": "repay", "among": "open", "pick": r.randrange(10)})
+            else:
+                acts.append({"op": "cancel", "among": "open", "pick": r.randrange(10)})
+        actions[f"BTC/USD@{t}"] = acts
+    sc["actions"] = actions
+    sc["jobs"] = []
+    sc["on_order_event"] = []
+    return sc
+
+
 def run_micro(cls: str, r, prop: str, res: ShardResult, other: collections.Counter, index=None) -> None:
     from vf.exsim import props
     if cls == "micro_c04":
@@ -136,6 +207,12 @@ def run_micro(cls: str, r, prop: str, res: ShardResult, other: collections.Count
     elif cls == "micro_c06":
         sc = micro_c06_scenario(r)
         run_boundary(sc, prop, res, other)
+    elif cls == "micro_c08":
+        props.one(prop, micro_c08_scenario(r), res, other)
+        res.count("micro_c08_runs")
+    elif cls == "micro_c07":
+        props.one(prop, micro_c07_scenario(r), res, other)
+        res.count("micro_c07_runs")
     elif cls == "micro_c10":
         sc = micro_c10_scenario(r)
         props.one(prop, sc, res, other)
